@@ -328,6 +328,8 @@ def run_scenarios(ctx, rep, scenarios, pool, channel_patch=None, count=True):
     jobs = [(spec, cfg, [it[3] for it in b], f"c07-{i}") for i, b in enumerate(batches)]
     outs = pool.map(_batch_job, jobs, chunksize=1)
     found = []
+    puppet_fault = []
+    bumble_fault = set()
     for b, o in zip(batches, outs):
         rep.extra["trace_states"] = rep.extra.get("trace_states", 0) + o["states"]
         for tid, v in o["verdicts"].items():
@@ -349,7 +351,12 @@ def run_scenarios(ctx, rep, scenarios, pool, channel_patch=None, count=True):
                 if ev["e"] == "raise" and r["anomalies"]:
                     clause = r["anomalies"][0][2]
                 if sc["peer"] == "puppet" and actor == 1:
-                    raise RuntimeError(f"harness: the puppet itself breaks the specification ({ev} clause {clause}) in scenario {json.dumps(sc)[:600]}")
+                    # the reference peer appears to break the specification.  If bumble broke it in the same scenario
+                    # (another channel or direction of this run is rejected with bumble as the actor) this is a
+                    # consequence - e.g. channels paired with the wrong peer identifiers make the puppet's own
+                    # direction look stalled; only when nothing else is wrong in that scenario it is a harness bug
+                    puppet_fault.append((si, f"({ev} clause {clause}) in scenario {json.dumps(sc)[:600]}"))
+                    continue
                 actor_role = sc["role"] if actor == 0 else ("client" if sc["role"] == "server" else "server")
                 sig = f"lecoc:{sc['cls']}:{sc['mode']}:{actor_role}:{ev['e']}:{clause}"
                 what = [a[1] for a in r["anomalies"]] + [s[1] for s in r["strays"]]
@@ -357,6 +364,10 @@ def run_scenarios(ctx, rep, scenarios, pool, channel_patch=None, count=True):
                            f"mtu/mps/credits {r['chans'][ci]['params'][1 - d]}): direction {'0->1' if d == 0 else '1->0'} event {l} {ev} refused: {clause}; "
                            f"spec state {info.get('st')}" + (f"; observed: {what[:3]}" if what else ""))
                 found.append((sig, summary, {"scenario": sc, "chan": ci, "dir": d, "line": l, "event": ev, "why": info.get("why"), "state": info.get("st")}))
+                bumble_fault.add(si)
+    for si, msg in puppet_fault:
+        if si not in bumble_fault:
+            raise RuntimeError(f"harness: the puppet itself breaks the specification {msg}")
     return found, results
 
 
